@@ -647,6 +647,22 @@ fn dense_roadmap<K: Kit>(tier: &'static str, idx: usize, sc0: &Scenario, seed: u
     }
     let Snap::Roadmap(g) = rig.snapshot() else { unreachable!() };
     rep.max("max_dense_milestones", g.len() as u64);
+    // the milestones are exactly the valid samples drawn, in order (a sample that was drawn and is valid is in the
+    // roadmap even if the deadline passed while it was being linked)
+    {
+        let drawn: Vec<K::S> = rig.space.log.borrow().iter().map(|(_, s)| s.clone()).filter(|s| rig.world.free(s)).collect();
+        rep.count("dense_sample_logs_compared", 1);
+        if r.is_ok() && (drawn.len() != g.len() || drawn.iter().zip(g.iter()).any(|(a, (b, _))| !K::same(a, b))) {
+            rep.violate("C18|PRM|dense|milestones-not-exactly-valid-samples".into(), format!("{} valid samples were drawn, the roadmap has {} milestones (or they differ)", drawn.len(), g.len()), || rp(json!({"milestones": g.len(), "valid_samples_drawn": drawn.len()})));
+            crate::props_deep::set_current(None);
+            return;
+        }
+    }
+    if n_samples > 400 {
+        // (the very large roadmaps exist for the sample accounting above; the pairwise laws are judged on the others)
+        crate::props_deep::set_current(None);
+        return;
+    }
     rep.max("max_dense_degree", g.iter().map(|(_, e)| e.len()).max().unwrap_or(0) as u64);
     let sp = rig.space.inner.clone();
     let radius = sc.params.step;
@@ -767,11 +783,20 @@ fn run_kit<K: Kit>(tier: &'static str, scs: &[(usize, Scenario)]) -> Report {
         .filter(|(_, s)| (s.world.name == "free" || s.world.name == "subset0000" || s.world.name == "subset0001") && s.tag.ends_with("PRMr1.6"))
         .flat_map(|(i, s)| (0..seeds).flat_map(move |seed| [(*i, s, seed, 1.0), (*i, s, seed, 1e6)]))
         .collect();
-    let dr = dense
+    // roadmaps of more than 512 milestones under two consecutive budgets (a deadline poll inside the linking scan of
+    // large roadmaps fires, for one of the two parities, while a drawn sample is half linked)
+    let big: Vec<(usize, &Scenario, u64, f64, usize)> = scs
+        .iter()
+        .filter(|(_, s)| s.world.name == "free" && s.tag.ends_with("PRMr1.1") && (s.kit == "RealVector" || tier != "quick"))
+        .flat_map(|(i, s)| [530usize, 531, 1040, 1041].into_iter().filter(move |n| *n < 1000 || tier != "quick").map(move |n| (*i, s, 0u64, 1.0, n)))
+        .collect();
+    let mut all: Vec<(usize, &Scenario, u64, f64, usize)> = dense.iter().map(|(i, s, seed, rm)| (*i, *s, *seed, *rm, n)).collect();
+    all.extend(big);
+    let dr = all
         .par_iter()
-        .map(|(i, sc, seed, rm)| {
+        .map(|(i, sc, seed, rm, n)| {
             let mut r = Report::new();
-            dense_roadmap::<K>(tier, *i, sc, *seed, n, *rm, &mut r);
+            dense_roadmap::<K>(tier, *i, sc, *seed, *n, *rm, &mut r);
             r
         })
         .reduce(Report::new, |mut a, b| {
